@@ -56,44 +56,52 @@ def run(ctx):
     ctx.floor("D1-TO-FILENAME", TOF, "rows", len(tof), 14)
     ctx.floor("D1-FROM-FILENAME", FROMF, "rows", len(fromf), 14)
 
-    # ---- D2 is_valid_pkgdir
+    # ---- D2 is_valid_pkgdir: not a plain file, and FOR ALL mandatory metadata files f: pkgdir.join(f).exists(); the quantifier is recognised as a
+    #      for-loop with `return false` or as `.iter().all(..)` and checked on its normal form (lib.quantifier)
     IV = "pkgdb::PkgDB::is_valid_pkgdir"
     ps = ctx.paths(IV)
     if ps:
         body = ctx.body(IV)
-        reqd = set()
-        for p in ps:
-            for e in p.calls(TOF):
-                v = strip_refs(resolve_promoted(ctx, strip_refs(e.args[0])))
-                a = agg_variant(v)
-                if a:
-                    reqd.add(a[1])
-        ctx.check(reqd == set(sp["mandatory"]), "D2-PKGDIR-REQUIRED", IV, "set", "requires exactly %s" % sorted(reqd),
-                  "is_valid_pkgdir requires %s; the mandatory files are %s" % (sorted(reqd), sp["mandatory"]), fn_span(body))
-        rets = ret_paths(ps)
-        trues = [p for p in rets if const_of(p.end[1]) is True]
-        falses = [p for p in rets if const_of(p.end[1]) is False]
-        ctx.floor("D2-PKGDIR", IV, "false-returning paths", len(falses), 2)
-        for i, p in enumerate(trues):
-            # true only after the loop is exhausted and is_file was false
-            nx = [c for c in p.conds() if c.term[0] == "discr" and is_call(c.term[1], "IntoIter as std::iter::Iterator>::next", "Iter as std::iter::Iterator>::next")]
-            isf = [c for c in p.conds() if is_call(c.term, "Path::is_file")]
-            ok = bool(nx) and nx[-1].fact == ("eq", 0) and bool(isf) and isf[0].fact == ("eq", False)
-            # the iterated vector holds the three names
-            okvec = bool(nx) and flows_from(p, nx[-1].term, lambda s: is_call(s, TOF))
-            ctx.check(ok and okvec, "D2-PKGDIR", IV, "true-path-%d" % i, "true only when not a file and every required name was checked",
-                      "is_valid_pkgdir returns true without exhausting the loop over the required files (or without rejecting plain files)", fn_span(body))
-        for i, p in enumerate(falses):
+        q = quantifier(ctx, IV, ps)
+        ctx.check(q is not None and q["kind"] == "all", "D2-PKGDIR", IV, "for-all-required", "true iff every mandatory file exists (%s form)" % (q["form"] if q else "?"),
+                  "is_valid_pkgdir is not `every mandatory metadata file must exist`: %s" % ("no universally quantified test was recognised" if q is None else "the quantifier is `%s`" % q["kind"]), fn_span(body))
+        if q is not None:
+            # which files: the MetadataEntry variants the iterated collection is built from (directly, or through to_filename())
+            reqd = set()
+            src = [q["coll"]] + [x for x in subterms(q["coll"])]
+            for x in src:
+                v = strip_refs(resolve_promoted(ctx, strip_refs(x))) if isinstance(x, tuple) else x
+                for y in ([v] + list(subterms(v)) if isinstance(v, tuple) else []):
+                    a_ = agg_variant(y)
+                    if a_ and a_[0] == ME:
+                        reqd.add(a_[1])
+            if not reqd:
+                # vec![..] is filled through raw stores: take the entries whose file names are computed on the way to the quantifier
+                for p in ps:
+                    for e in p.calls(TOF):
+                        a_ = agg_variant(strip_refs(resolve_promoted(ctx, strip_refs(e.args[0]))))
+                        if a_:
+                            reqd.add(a_[1])
+            ctx.check(reqd == set(sp["mandatory"]), "D2-PKGDIR-REQUIRED", IV, "set", "requires exactly %s" % sorted(reqd),
+                      "is_valid_pkgdir requires %s; the mandatory files are %s" % (sorted(reqd), sp["mandatory"]), fn_span(body))
+            t = q["pred"]
+            j = strip_refs(call_args(t)[0]) if is_call(t, "Path::exists") else None
+            okp = j is not None and not q["neg"] and is_call(j, "Path::join") and strip_refs(call_args(j)[0]) == ("param", 2) and is_elem(call_args(j)[1])
+            namearg = strip_refs(call_args(j)[1]) if okp else None
+            # the joined name is the element itself (a file name) or to_filename(element) (an entry)
+            okn = okp and (is_call(namearg, TOF) or not is_call(namearg) or is_call(namearg, "AsRef", "::as_ref", "Deref>::deref", "::as_str"))
+            ctx.check(okp and okn, "D2-PKGDIR", IV, "per-file-test", "each file: pkgdir.join(name).exists()",
+                      "the per-file test is %s%s; expected pkgdir.join(<mandatory file name>).exists()" % ("NOT " if q["neg"] else "", term_str(t)[:100]), fn_span(body))
+            isf = [c for c in q["before"] if is_call(c.term, "Path::is_file") and strip_refs(call_args(c.term)[0]) == ("param", 2)]
+            ctx.check(bool(isf) and isf[0].fact == ("eq", False), "D2-PKGDIR", IV, "plain-files-rejected-first", "a plain file is rejected before the metadata is looked at",
+                      "is_valid_pkgdir does not reject plain files before testing for the metadata files", fn_span(body), nontrivial=False)
+        for i, p in enumerate(p_ for p_ in ret_paths(ps) if const_of(p_.end[1]) is False):
             cs = p.conds()
             last = cs[-1] if cs else None
-            ok = False
-            if last is not None and is_call(last.term, "Path::is_file"):
-                ok = last.fact == ("eq", True) and strip_refs(call_args(last.term)[0]) == ("param", 2)
-            elif last is not None and is_call(last.term, "Path::exists"):
-                j = strip_refs(call_args(last.term)[0])
-                ok = last.fact == ("eq", False) and is_call(j, "Path::join") and strip_refs(call_args(j)[0]) == ("param", 2)
+            ok = last is not None and ((is_call(last.term, "Path::is_file") and last.fact == ("eq", True) and strip_refs(call_args(last.term)[0]) == ("param", 2))
+                                      or (is_call(last.term, "Path::exists") and last.fact == ("eq", False)))
             ctx.check(ok, "D2-PKGDIR", IV, "false-path-%d" % i, "false because it is a file or a required file is missing",
-                      "is_valid_pkgdir returns false for a reason other than `is a file` / `pkgdir.join(required) does not exist`", fn_span(body))
+                      "is_valid_pkgdir returns false for a reason other than `is a file` / `pkgdir.join(required) does not exist`", fn_span(body), nontrivial=False)
     # Metadata::is_valid
     MV = "metadata::Metadata::is_valid"
     ps = ctx.paths(MV)
